@@ -182,10 +182,6 @@ func scenarios(thorough bool) []scenario {
 			build: func(env *sbx.Env, srv *fakelfs.Server, r *rand.Rand) string {
 				return pointerClone(env, srv, r, 4, true)
 			}},
-		{name: "lfs-fetch-with-full-length-parts", prog: "git-lfs", args: []string{"fetch", "origin", "main"}, crashCmd: "fetch", direct: true,
-			build: func(env *sbx.Env, srv *fakelfs.Server, r *rand.Rand) string {
-				return pointerClone(env, srv, r, -5, false)
-			}},
 		{name: "lfs-fetch-with-parts-server-ignores-range", prog: "git-lfs", args: []string{"fetch", "origin", "main"}, crashCmd: "fetch", direct: true,
 			build: func(env *sbx.Env, srv *fakelfs.Server, r *rand.Rand) string {
 				// resume files from an earlier interrupted run, and a server that answers a Range request
@@ -213,6 +209,10 @@ func scenarios(thorough bool) []scenario {
 			}},
 	}
 	more := []scenario{
+		{name: "lfs-fetch-with-full-length-parts", prog: "git-lfs", args: []string{"fetch", "origin", "main"}, crashCmd: "fetch", direct: true,
+			build: func(env *sbx.Env, srv *fakelfs.Server, r *rand.Rand) string {
+				return pointerClone(env, srv, r, -5, false)
+			}},
 		{name: "lfs-clean-oneshot", prog: "git-lfs", args: []string{"clean", "--", "big.bin"}, crashCmd: "clean", direct: true, stdinFile: "big.bin",
 			build: func(env *sbx.Env, srv *fakelfs.Server, r *rand.Rand) string {
 				repo := env.InitRepo("repo")
@@ -481,7 +481,7 @@ func main() {
 		// filesystem (rename/link fail with EXDEV and a fallback runs) are always included
 		var rest []scenario
 		for _, sc := range all[4:] {
-			if strings.Contains(sc.name, "other-filesystem") {
+			if strings.Contains(sc.name, "other-filesystem") || sc.name == "lfs-fetch-with-full-length-parts" {
 				chosen = append(chosen, sc)
 			} else {
 				rest = append(rest, sc)
